@@ -37,6 +37,8 @@ static atomic_long g_n = 0;
 static int g_log = -1;
 static char g_root[4096];
 static size_t g_rootlen = 0;
+static char g_root2[4096];      /* optional second monitored tree ($VF_SHIM_ROOT2), e.g. a TMPDIR on another filesystem */
+static size_t g_root2len = 0;
 static int g_init = 0;
 
 #define MAXRULES 32
@@ -88,6 +90,8 @@ static void init(void)
     const char *log = getenv("VF_SHIM_LOG");
     const char *rules = getenv("VF_SHIM_RULES");
     if (root) { snprintf(g_root, sizeof g_root, "%s", root); g_rootlen = strlen(g_root); }
+    const char *root2 = getenv("VF_SHIM_ROOT2");
+    if (root2) { snprintf(g_root2, sizeof g_root2, "%s", root2); g_root2len = strlen(g_root2); }
     if (log) g_log = syscall(SYS_open, log, O_WRONLY | O_CREAT | O_APPEND | O_CLOEXEC, 0644);
     if (rules) parse_rules(rules);
 }
@@ -96,8 +100,9 @@ __attribute__((constructor)) static void ctor(void) { init(); }
 static int in_root(const char *p)
 {
     if (!g_rootlen || !p) return 0;
-    if (strncmp(p, g_root, g_rootlen)) return 0;
-    return p[g_rootlen] == '/' || p[g_rootlen] == 0;
+    if (!strncmp(p, g_root, g_rootlen) && (p[g_rootlen] == '/' || p[g_rootlen] == 0)) return 1;
+    if (g_root2len && !strncmp(p, g_root2, g_root2len) && (p[g_root2len] == '/' || p[g_root2len] == 0)) return 1;
+    return 0;
 }
 
 /* make a path absolute (no symlink resolution: we want the name used) */
